@@ -188,6 +188,57 @@ def c14(ctx):
                         bad.append({"shape": shape_wire(s), "query": "get_root_side", "node": i})
             except Exception as e:  # noqa
                 bad.append({"shape": shape_wire(s), "query": "exception", "node": i, "exc": type(e).__name__})
+    # queries stay consistent with the links after the tree is edited (re-parenting a sub-tree,
+    # rotating): every node is asked BEFORE the edit as well, so stale answers would show
+    def true_root(o):
+        while o.parent is not None:
+            o = o.parent
+        return o
+
+    n_edit = 0
+    for s in all_shapes(5 if quick else 6):
+        for i in ids_of(s)[1:]:
+            for edit in ("move", "rotate", "detach"):
+                nodes = {}
+                root = build(s, nodes)
+                for o in nodes.values():
+                    o.get_root()
+                    o.get_sibling()
+                    o.get_children()
+                n = nodes[i]
+                par = n.parent
+                if edit == "move":
+                    if par.left is n:
+                        par.set_left(None, clear_old_child_parent=True)
+                    else:
+                        par.set_right(None, clear_old_child_parent=True)
+                    BinaryTreeNode(left=n, id="new-root")
+                elif edit == "detach":
+                    if par.left is n:
+                        par.set_left(None, clear_old_child_parent=True)
+                    else:
+                        par.set_right(None, clear_old_child_parent=True)
+                else:
+                    n.rotate()
+                n_edit += 1
+                for k, o in nodes.items():
+                    want = true_root(o)
+                    got = o.get_root()
+                    if got is not want:
+                        bad.append({"shape": shape_wire(s), "edit": edit, "moved": i, "node": k, "query": "get_root after edit",
+                                    "got": got.id, "expected": want.id})
+                        break
+                    sib = o.get_sibling()
+                    want_sib = None
+                    if o.parent is not None:
+                        want_sib = o.parent.right if o.parent.left is o else o.parent.left
+                    if sib is not want_sib:
+                        bad.append({"shape": shape_wire(s), "edit": edit, "moved": i, "node": k, "query": "get_sibling after edit"})
+                        break
+                    if [id(c) for c in o.get_children()] != [id(c) for c in (o.left, o.right) if c is not None]:
+                        bad.append({"shape": shape_wire(s), "edit": edit, "moved": i, "node": k, "query": "get_children after edit"})
+                        break
+    ctx.notes["edit_histories"] = n_edit
     ans = drv.ask(lines)
     diffs = []
     for (s, kind, stop, trace, stopped), a in zip(meta, ans):
@@ -260,10 +311,14 @@ def c15(ctx):
     shs = all_shapes(6 if quick else 8)
     drv = core.Driver()
     lines, meta, bad = [], [], []
-    for s in shs:
+    for s, dup_ids in [(s, False) for s in shs] + [(s, True) for s in all_shapes(5 if quick else 7)]:
         for i in ids_of(s):
             nodes = {}
             root = build(s, nodes)
+            if dup_ids:
+                # node ids are not unique in real trees (clone() copies them): identity must decide
+                for o in nodes.values():
+                    o.id = "same"
             before_in = [x[0] for x in order(s, "in")]
             before_cells = cells_of(root, nodes)
             ret = nodes[i].rotate()
@@ -273,6 +328,9 @@ def c15(ctx):
             after_shape = shape_of(new_root, rev)
             after_in = [x[0] for x in order(after_shape, "in")]
             probs = []
+            if dup_ids:
+                for k, o in nodes.items():
+                    o.id = str(k)
             if ret is not nodes[i]:
                 probs.append("rotate did not return the node")
             if after_in != before_in or sorted(ids_of(after_shape)) != sorted(ids_of(s)):
@@ -291,7 +349,7 @@ def c15(ctx):
                 if g is not None and i not in (cells[g][0], cells[g][1]):
                     probs.append("grandparent does not point at the rotated node")
             if probs:
-                bad.append({"shape": shape_wire(s), "node": i, "problems": probs})
+                bad.append({"shape": shape_wire(s), "node": i, "problems": probs, "duplicate_id_strings": dup_ids})
             lines.append(f"rotate {i} {shape_wire(s)}")
             meta.append((s, i, after_shape, cells))
     ans = drv.ask(lines)
@@ -472,6 +530,42 @@ def c13(ctx):
                     bad.append({"tree": core.tuple_str(t), "node": k, "style": style, "problem": "copy shares objects"})
                 if expr_signature(root) != sig:
                     bad.append({"tree": core.tuple_str(t), "node": k, "style": style, "problem": "original modified"})
+    # trees whose node ids are NOT unique: rewrites clone operands (ids are copied), constructors
+    # can reuse x.clone(); clone_from_root must still return the copy of THE node it was given
+    from mathy_core.rules import DistributiveMultiplyRule, BalancedMoveRule
+    dup_roots = []
+    for t in trees[:: 9 if quick else 3]:
+        root = core.tuple_to_py(t)
+        for node in core.inorder(root):
+            for rule in (DistributiveMultiplyRule(), BalancedMoveRule()):
+                try:
+                    if rule.can_apply_to(node):
+                        dup_roots.append(rule.apply_to(node.clone_from_root()).result.get_root())
+                except Exception:
+                    pass
+        if rng.random() < 0.3:
+            a = core.tuple_to_py(t)
+            dup_roots.append(X.AddExpression(X.MultiplyExpression(a, a.clone()), a.clone()))
+    for root in dup_roots[: 3000 if quick else 60000]:
+        objs = core.inorder(root)
+        sig = expr_signature(root)
+        for k, node in enumerate(objs):
+            try:
+                got = node.clone_from_root()
+            except Exception as e:  # noqa
+                bad.append({"tree": str(root), "node": k, "problem": "clone_from_root raised " + type(e).__name__,
+                            "duplicate_ids": True})
+                continue
+            n_eval += 1
+            newroot = got.get_root()
+            if expr_signature(newroot) != sig:
+                bad.append({"tree": str(root), "node": k, "problem": "copy is not complete", "duplicate_ids": True})
+            elif path_to(got) != path_to(node):
+                bad.append({"tree": str(root), "node": k, "duplicate_ids": True,
+                            "problem": "returned node is not the copy of the given node",
+                            "want_path": path_to(node), "got_path": path_to(got)})
+                break
+    ctx.notes["trees_with_duplicate_ids"] = len(dup_roots)
     # generic shapes
     for s in all_shapes(5 if quick else 7):
         nodes = {}
